@@ -762,6 +762,33 @@ pub fn run(
     (t, l)
 }
 
+/// The document sits behind `k` foreign bytes that the caller consumes from the reader before
+/// handing it to `LineReader::new` ("line 1 starts at the current position"): a skipped byte order
+/// mark, a magic number, a preamble.
+pub fn run_behind_preamble(
+    spec: &Spec,
+    data: Rc<Vec<u8>>,
+    feed: &Feed,
+    k: usize,
+    collect: bool,
+) -> (Trace, SrcLog) {
+    let (mut reader, log) = crate::source::build_reader(data, feed, None);
+    let mut left = k;
+    while left > 0 {
+        let want = left.min(7);
+        let got = reader.request(want).len();
+        if got == 0 {
+            break;
+        }
+        let n = got.min(want);
+        reader.advance(n);
+        left -= n;
+    }
+    let t = run_on_init(spec, Init::Reader(reader), log.clone(), collect);
+    let l = log.borrow().clone();
+    (t, l)
+}
+
 /// What a streaming AIGER driver reports in skip mode: the header, the first entry of every
 /// section (the library skips the others in the transition functions) and the comment.
 pub fn skip_filter(items: &[Item]) -> Vec<Item> {
